@@ -150,7 +150,21 @@ def _main(mod, prop, tier, seed, jobs, replay, scratch, t0):
         mod.finalize(m, tier)
     if not replay:
         try:
-            inconclusive.extend(mod.gates(m, tier))
+            for g in mod.gates(m, tier):
+                # gates about the INTERNALS of the pinned tree (which private
+                # function was entered, where an exception was born) are
+                # advisory: a correct tree that was refactored must not turn
+                # into 'inconclusive'.  They are kept in the evidence.
+                if g.startswith('advisory: '):
+                    m.notes.append(g) if hasattr(m, 'notes') else None
+                    m.counters['advisory_gates_unmet'] = \
+                        m.counters.get('advisory_gates_unmet', 0) + 1
+                else:
+                    inconclusive.append(g)
+            if m.sets.get('funcs_reached') is not None and \
+                    getattr(mod, 'WANT_LINES', False) and \
+                    not m.sets.get('funcs_reached'):
+                inconclusive.append('no function of the library was entered')
         except Exception as e:      # pragma: no cover
             inconclusive.append('gate evaluation failed: %r' % (e,))
     # -- classify violations ------------------------------------------------
